@@ -44,7 +44,8 @@ def _flags(allowed):
 @st.composite
 def _spec(draw):
     conv = draw(st.sampled_from(list("ddiuoxXcsssfFeEgGaAp$$")))
-    width = draw(st.one_of(st.none(), st.none(), st.integers(0, 40)))
+    width = draw(st.one_of(st.none(), st.none(), st.integers(0, 40), st.integers(0, 40),
+                           st.sampled_from([63, 64, 65, 127, 128, 129, 255, 256, 257])))       # and typical buffer sizes
     prec = draw(st.one_of(st.none(), st.none(), st.integers(0, 40)))
     lm = ""
     if conv in "di":
@@ -113,11 +114,22 @@ _lit = st.binary(min_size=1, max_size=10).map(lambda b: bytes(c for c in b if c 
 def _case(draw):
     pieces = draw(st.lists(st.one_of(_lit, st.just(["pct"]), _spec(), _spec()), min_size=1, max_size=8))
     nspec = sum(1 for p in pieces if p[0] == "spec")
+    share = draw(st.sampled_from([False, False, True]))
+    if share:
+        # the SAME object at several argument positions: later specs of a value type reuse the first one's value,
+        # and run_case passes one heap object for all of them
+        first = {}
+        for p in pieces:
+            if p[0] == "spec" and p[6][0] in ("Int", "Float", "String") and p[5] not in "c":
+                if p[6][0] in first and draw(st.booleans()):
+                    p[6] = list(first[p[6][0]])
+                else:
+                    first.setdefault(p[6][0], p[6])
     prefix = draw(st.one_of(st.just(b""), gen.cbytes(12)))
     return {"pieces": pieces, "prefix": prefix.hex(), "pos": draw(st.sampled_from([0, 0, 1000, 500, 300])),
             "sink": draw(st.sampled_from(["string", "string", "file"])),
             "drop": draw(st.sampled_from([0, 0, 0, 0, 1])) if nspec else 0,
-            "cfg": draw(st.sampled_from(["asan", "plain"]))}
+            "cfg": draw(st.sampled_from(["asan", "plain"])), "share": share}
 
 
 def strategy(tier):
@@ -154,6 +166,7 @@ def run_case(ctx, case):
     args = []
     expect_parts = []       # bytes | ("ref", key) | ("regex", bytes pattern)
     slot = [10]
+    shared = {}
     nflag = 0
     nspec = 0
     for idx, p in enumerate(pieces):
@@ -202,6 +215,13 @@ def run_case(ctx, case):
                         return None
                     P.add("fwdkv %%%d" % s, grab)
                 a = "%%%d" % s
+            elif case.get("share") and val[0] in ("Int", "Float", "String") and conv != "c":
+                keyv = (val[0], val[1])
+                if keyv not in shared:
+                    slot[0] += 1
+                    P.add("new %%%d heap t:%s %s" % (slot[0], val[0], val[1]))
+                    shared[keyv] = "%%%d" % slot[0]
+                a = shared[keyv]
             else:
                 a = val[1]
             args.append(a)
